@@ -4,7 +4,7 @@ From Coq Require Import List NArith ZArith String Bool.
 From GQL Require Import Exec.Syntax Validate.VSyntax Validate.Overlap Validate.OverlapSpec Validate.Rules
      Exec.Exec Proofs.ValidateOverlap Proofs.ValidateRules Proofs.ValidateMerge Proofs.ValidateMemo Proofs.ValidateInputFields Proofs.ValidateArgs Proofs.ValidateCycles Proofs.ValidateUnused Proofs.ValidateMemoHard Proofs.ValidateL1 Validate.All Proofs.ValidateAll Proofs.ValidateCyclesComplete
      Validate.OverlapWf Proofs.ValidateReflect Proofs.ValidateReflectClose Proofs.ValidateFuel Proofs.ValidateDecide
-     Proofs.ValidateWf Proofs.ValidateRank Proofs.ValidateWfDoc Proofs.ValidateClosure Proofs.ValidateRulesDecl Proofs.ValidateLiteral Proofs.ValidateWitness.
+     Proofs.ValidateWf Proofs.ValidateRank Proofs.ValidateWfDoc Proofs.ValidateClosure Proofs.ValidateRulesDecl Proofs.ValidateLiteral Proofs.ValidateWitness Proofs.ValidateOffending.
 Import ListNotations.
 Open Scope string_scope.
 
@@ -406,6 +406,20 @@ Theorem C02_overlap_sound_witness : forall S D memo fuel x, In x (run_overlap S 
                 Cfl S D false a b /\ ~ compat S D (base2 S) false a b.
 Proof. exact overlap_sound_witness. Qed.
 Print Assumptions C02_overlap_sound_witness.
+
+(* The runner's oracle for the location of overlap errors: whenever offending_o answers, its
+   ids are exactly the fields of visited selection sets that are a member of an incompatible
+   pair with one response key (Offending, Proofs/ValidateOffending.v), and every node the
+   model of the rule reports -- memoised or not, any fuel -- is among them. *)
+Theorem C02_offending_oracle : forall S D fuel ids, offending_o S D fuel = Some ids ->
+  forall x, In x ids <-> exists s, In s (all_sets S D) /\ Offending S D s x.
+Proof. exact offending_o_spec. Qed.
+Print Assumptions C02_offending_oracle.
+
+Theorem C02_overlap_reports_offending : forall S D fuel ids, offending_o S D fuel = Some ids ->
+  forall memo fuel' x, In x (run_overlap S D memo fuel') -> In x ids.
+Proof. exact model_reports_offending. Qed.
+Print Assumptions C02_overlap_reports_offending.
 
 (* The Prop-level hypotheses follow from decidable tests (Validate/OverlapWf.v), which the
    runner evaluates on every case: ids_ok (selection node ids pairwise distinct and non-zero),
